@@ -75,6 +75,39 @@ def oracle(k, ops):
     return fails
 
 
+def topo_empty_bucket(rng, n):
+    """TopoART histories in which a pruning round of fit removes every category (all labels -1), continued with
+    partial_fit calls: the label vector keeps one entry per sample presented since the last fit"""
+    import contextlib, io
+    import artlib
+    fails = []
+    for _ in range(n):
+        m = rng.randrange(2, 7)
+        d = rng.choice([1, 2])
+        raw = np.array([[(i + 0.5) / m if j == 0 else rng.random() for j in range(d)] for i in range(m)])
+        X = np.hstack([raw, 1.0 - raw])
+        phi = min(rng.choice([2, 3]), m)
+        rep = {"estimator": "TopoART(FuzzyART rho=0.999)", "tau": m, "phi": phi, "X": X.tolist(),
+               "how": "fit(X); partial_fit(X[:1]); partial_fit(X[1:3])"}
+        try:
+            with np.errstate(all="ignore"), contextlib.redirect_stdout(io.StringIO()):
+                est = artlib.TopoART(artlib.FuzzyART(rho=0.999, alpha=1e-3, beta=1.0), beta_lower=0.5, tau=m, phi=phi)
+                est.fit(X)
+                presented = m
+                for lo, hi in ((0, 1), (1, 3)):
+                    est.partial_fit(X[lo:hi])
+                    presented += len(X[lo:hi])
+                    why = book_ok([int(v) for v in est.labels_], len(est.W), [], est.sample_counter_, presented,
+                                  check_counters=False, allow_minus1=True)
+                    if why:
+                        fails.append({"signature": "TopoART.partial_fit/book", "text": "TopoART after a round that removed every category: " + why,
+                                      "replay": rep})
+                        break
+        except Exception:
+            pass            # totality is C04's business
+    return fails
+
+
 def main():
     tier = sys.argv[1] if len(sys.argv) > 1 else "quick"
     seed = C.seed_from_env()
@@ -86,6 +119,12 @@ def main():
     zf, zn = zoo.book_oracle_all(C.make_rng(seed, "C05-zoo"), 60 if tier == "quick" else 600)
     import flow
     for f in zf:
+        kf = C.match_known("C05", f["signature"])
+        if kf is not None:
+            v.known(f["signature"], kf.get("text", f["signature"]))
+        else:
+            v.violation(dict(f["replay"], property="C05", signature=f["signature"], what=f["text"]))
+    for f in topo_empty_bucket(C.make_rng(seed, "C05-topo-empty"), 30 if tier == "quick" else 300):
         kf = C.match_known("C05", f["signature"])
         if kf is not None:
             v.known(f["signature"], kf.get("text", f["signature"]))
